@@ -40,6 +40,8 @@ def _own_nodes(fn):
     while stack:
         n = stack.pop()
         yield n
+        if isinstance(n, FuncDef + (ast.ClassDef, ast.Lambda)):
+            continue  # a definition nested directly in the body: its own body is not part of this function's
         for c in ast.iter_child_nodes(n):
             if isinstance(c, FuncDef + (ast.ClassDef, ast.Lambda)):
                 continue
@@ -495,9 +497,51 @@ def inline_new_helpers(trees: Dict[str, ast.Module], known: Set[str]) -> List[st
         def rewrite(stmts: List[ast.stmt], within: Optional[ast.AST]) -> List[ast.stmt]:
             nonlocal changed
             out: List[ast.stmt] = []
-            for st in stmts:
+            stmts = list(stmts)
+            idx = 0
+            while idx < len(stmts):
+                st = stmts[idx]
+                idx += 1
                 rep = None
                 if isinstance(st, (ast.Expr, ast.Assign, ast.AnnAssign, ast.Return, ast.AugAssign)) and getattr(st, "value", None) is not None:
+                    v, aw = strip(st.value)
+                    # a procedure helper called INSIDE the statement's expression (`d.update(h(x)._asdict())`, `f(h(x), y)`): the call
+                    # is hoisted into a temporary first - only when everything evaluated before it is plain (names, attributes, constants)
+                    if not (isinstance(v, ast.Call) and target_of(v)[0] is not None):
+                        hoist = None
+                        order: List[ast.AST] = []
+
+                        def ev(e: ast.AST) -> None:  # evaluation order, left to right, operands before the call
+                            for c in ast.iter_child_nodes(e):
+                                if isinstance(c, (ast.expr,)) and not isinstance(c, (ast.Lambda, ast.GeneratorExp, ast.ListComp, ast.SetComp, ast.DictComp, ast.IfExp, ast.BoolOp)):
+                                    ev(c)
+                                elif isinstance(c, ast.keyword):
+                                    ev(c.value) if not isinstance(c.value, (ast.Lambda, ast.GeneratorExp, ast.ListComp, ast.SetComp, ast.DictComp, ast.IfExp, ast.BoolOp)) else None
+                            order.append(e)
+
+                        ev(st.value)
+                        for e in order:
+                            if isinstance(e, ast.Call):
+                                h0, _r0 = target_of(e)
+                                if h0 is not None and h0.fn is not within and h0.kind == "proc" and not isinstance(h0.fn, ast.AsyncFunctionDef):
+                                    hoist = e
+                                break  # only the first call in evaluation order may be hoisted
+                        if hoist is not None and hoist is not v:
+                            tmp = f"_{target_of(hoist)[0].name}__val"
+                            asg = ast.copy_location(ast.Assign(targets=[ast.Name(id=tmp, ctx=ast.Store())], value=hoist), st)
+
+                            class _R(ast.NodeTransformer):
+                                def visit_Call(self, n):
+                                    if n is hoist:
+                                        return ast.copy_location(ast.Name(id=tmp, ctx=ast.Load()), n)
+                                    return self.generic_visit(n)
+
+                            st.value = _R().visit(st.value)
+                            ast.fix_missing_locations(asg)
+                            ast.fix_missing_locations(st)
+                            stmts[idx - 1:idx] = [asg, st]
+                            idx -= 1
+                            continue
                     v, aw = strip(st.value)
                     if isinstance(v, ast.Call):
                         h, recv = target_of(v)
